@@ -49,6 +49,9 @@ def gen_sig(r):
 
 def gen_value(r, p, allow_bad=True):
     """(arg, expectation) where expectation in {'fits', 'neither', 'unjudged'}"""
+    if p.imm and (p.is_float or (p.is_int and p.size == 4 and not p.arg0)) and r.chance(0.12):
+        # a register where only an immediate is meaningful: accepted with a warning, stored as a plain number, no mask bit
+        return (('rf', r.pick(FLOAT_REGS)) if p.is_float else ('ri', r.pick(INT_REGS))), 'imm-reg'
     if p.is_float:
         if not p.imm and r.chance(0.2): return ('rf', r.pick(FLOAT_REGS)), 'fits'
         return ('f', r.pick([0, 0x3f800000, 0xbf800000, 0x40490fdb, 0x7f7fffff, 0x00800000, 0x3dcccccd, 0xc2f60000, 0x461c4000, 0x80000000])), 'fits'
@@ -144,7 +147,8 @@ def run_shard(ctx):
         if da is None or len(da) != len(nonpad):
             if loss: ctx.count('decode_with_loss_warning'); continue
             ctx.violation('abi:decoded-arity', 'decompiled call has %s arguments, signature has %d: %s' % (None if da is None else len(da), len(nonpad), (obs.get('dec_text') or '')[-300:]), replay); continue
-        bad = [(p.text(), g, got) for p, g, got in zip(nonpad, args, da) if not same_decoded(p, g, got)]
+        bad = [(p.text(), g, got) for p, g, got, e in zip(nonpad, args, da, exps) if e != 'imm-reg' and not same_decoded(p, g, got)]
+        if 'imm-reg' in exps: ctx.count('register_in_immediate_param')
         if bad:
             if loss: ctx.count('decode_with_loss_warning'); continue
             ctx.violation('abi:decoded-differs:%s' % bad[0][0][:20], 'wrote %s, decompiled %s (param %s)' % (bad[0][1], bad[0][2], bad[0][0]), replay); continue
